@@ -30,6 +30,7 @@ package goose
 //@ axiom [ast] gendecl_value_specs: forall d *ast.GenDecl, i int :: 0 <= i && i < len(d.Specs) && (d.Tok == token.VAR || d.Tok == token.CONST) ==> typeis(d.Specs[i], *ast.ValueSpec)
 //@ axiom [ast] gendecl_import_specs: forall d *ast.GenDecl, i int :: 0 <= i && i < len(d.Specs) && d.Tok == token.IMPORT ==> typeis(d.Specs[i], *ast.ImportSpec)
 //@ axiom [ast] gendecl_type_specs: forall d *ast.GenDecl, i int :: 0 <= i && i < len(d.Specs) && d.Tok == token.TYPE ==> typeis(d.Specs[i], *ast.TypeSpec)
+//@ axiom [ast] rangestmt_tok: forall s *ast.RangeStmt :: s.Tok == token.DEFINE || s.Tok == token.ASSIGN || (s.Key == nil && s.Value == nil)
 //@ axiom [ast] if_else_kinds: forall s *ast.IfStmt :: s.Else == nil || typeis(s.Else, *ast.BlockStmt) || typeis(s.Else, *ast.IfStmt)
 //@ axiom [ast] maptype_is_map: forall info *types.Info, e *ast.MapType :: typeis(pure(types.Type, "(go/types.Type).Underlying", pure(types.Type, "(*go/types.Info).TypeOf", info, ast.Expr(e))), *types.Map)
 //@ axiom [ast] arraytype_is_array: forall info *types.Info, e *ast.ArrayType :: e.Len != nil ==> typeis(pure(types.Type, "(*go/types.Info).TypeOf", info, ast.Expr(e)), *types.Array)
@@ -141,6 +142,7 @@ package goose
 //@   ensures [every target is an identifier] forall i int :: 0 <= i && i < len(s.Lhs) ==> typeis(s.Lhs[i], *ast.Ident)
 //@   ensures [at most four results can be destructured] len(s.Lhs) <= 4
 //@   loop 1 invariant [targets so far are identifiers] forall i int :: 0 <= i && i <= rangeindex ==> typeis(s.Lhs[i], *ast.Ident)
+//@   loop 1 invariant [one identifier per target so far] len(idents) == rangeindex + 1
 //@ func (Ctx).sliceExpr
 //@   may_reject
 //@   ensures [no 3-index slices, no complete slice] !e.Slice3 && e.Max == nil && !(e.Low == nil && e.High == nil)
@@ -402,17 +404,24 @@ package goose
 
 //@ props C07 C08
 
-//@ func getFfi$1
+// ffcount(pkg): the number of FFIs the walk finds for pkg. That two walks over the same (immutable)
+// package graph find the same FFIs is assumed (packages.Visit is not under contract).
+//@ ghost func ffcount(pkg *packages.Package) int
+
+//@ func ffisUsed$1
 //@   ensures [the walk does not descend into FFI packages] result == !has(ffiMapping, pkg.PkgPath)
-//@ func getFfi$2
-//@   requires [map allocated by getFfi] *seenFfis != nil
+//@ func ffisUsed$2
+//@   requires [map allocated by ffisUsed] *seenFfis != nil
 //@   ensures [an FFI package contributes its FFI] has(ffiMapping, pkg.PkgPath) ==> has(*seenFfis, ffiMapping[pkg.PkgPath])
 //@   ensures [nothing is removed] forall v string :: old(has(*seenFfis, v)) ==> has(*seenFfis, v)
 //@   ensures [nothing else is added] forall v string :: has(*seenFfis, v) && !old(has(*seenFfis, v)) ==> has(ffiMapping, pkg.PkgPath) && v == ffiMapping[pkg.PkgPath]
 //@   modifies map(*seenFfis)
+//@ assume func ffisUsed (pkg)
+//@   allocates
+//@   ensures [a fresh map whose size is a function of the package graph] result != nil && fresh(result) && len(result) == ffcount(pkg)
 //@ func getFfi
 //@   also C06
-//@   may_panic
+//@   panics_iff [two different FFIs are refused] ffcount(pkg) > 1
 //@   ensures_local [the unique FFI seen, or none] result == "none" || has(seenFfis, result)
 //@   ensures_local [two different FFIs are refused] len(seenFfis) <= 1
 //@   ensures_local [none only if no FFI was seen] result == "none" ==> len(seenFfis) == 0 || has(seenFfis, "none")
